@@ -571,12 +571,24 @@ func (r *Request) error(e *Error, m *metaObject) {
 	if e == nil {
 		e = ErrInternalError
 	}
-	data, err := json.Marshal(errorResponse{Error: e, Meta: m})
+	r.reply(encodeError(errorResponse{Error: e, Meta: m}))
+}
+
+// encodeError encodes an error response. An error that cannot be encoded, or
+// whose data panics while being encoded, gives an internal error response; as
+// error may be called while recovering from a handler panic, a panic must not
+// escape from it.
+func encodeError(v errorResponse) (data []byte) {
+	defer func() {
+		if recover() != nil {
+			data = responseInternalError
+		}
+	}()
+	data, err := json.Marshal(v)
 	if err != nil {
 		data = responseInternalError
 	}
-
-	r.reply(data)
+	return data
 }
 
 // reply sends an encoded payload to as a reply.
